@@ -387,6 +387,20 @@ func (c *Ctx) RuleResolve() *Result {
 							}
 						}
 					}
+					if !okUse {
+						// handed to a helper of the repository that joins it below AssemblyDir()
+						for _, rr := range referrers(ld) {
+							if hc, ok := rr.(*ssa.Call); ok {
+								if sf := staticFn(&hc.Call); sf != nil && c.P.IsRepoFn(sf) {
+									for i, a := range hc.Call.Args {
+										if a == ssa.Value(ld) && i < len(sf.Params) && paramJoinedBelowAssemblyDir(sf.Params[i]) {
+											okUse = true
+										}
+									}
+								}
+							}
+						}
+					}
 					if okUse {
 						res.ok(key, pos, "joined below AssemblyDir()")
 					} else if len(referrers(ld)) == 0 {
@@ -613,6 +627,27 @@ func (c *Ctx) RuleResolve() *Result {
 					if fa, ok := ld.X.(*ssa.FieldAddr); ok && fa.X == ssa.Value(g) && fa.Field == nameField.Field {
 						okName = true
 					}
+				}
+				if par, isPar := stripConv(els[1]).(*ssa.Parameter); isPar && !okName {
+					// the name arrives in a parameter: every caller passes the resolved file name
+					pi := paramIndex(fn, par)
+					n, all := 0, true
+					for _, e := range c.Graph().In[fn] {
+						cc := callCommon(e.Site)
+						if cc == nil || staticFn(cc) != fn || pi < 0 || pi >= len(cc.Args) {
+							continue
+						}
+						n++
+						ld, ok := stripConv(cc.Args[pi]).(*ssa.UnOp)
+						if !ok {
+							all = false
+							continue
+						}
+						if fa, ok := ld.X.(*ssa.FieldAddr); !ok || fa.X != ssa.Value(g) || fa.Field != nameField.Field {
+							all = false
+						}
+					}
+					okName = n > 0 && all
 				}
 				if okName {
 					res.ok(key, c.P.InstrPos(cj), "the resolved file name")
@@ -893,4 +928,52 @@ func fieldOfLoad(v ssa.Value) *types.Var {
 		return nil
 	}
 	return st.Field(fa.Field)
+}
+
+// paramJoinedBelowAssemblyDir: every use of the parameter is the second element of path.Join(AssemblyDir(), p).
+func paramJoinedBelowAssemblyDir(p *ssa.Parameter) bool {
+	uses, joined := 0, 0
+	for _, r := range referrers(p) {
+		if _, dbg := r.(*ssa.DebugRef); dbg {
+			continue
+		}
+		uses++
+		st, ok := r.(*ssa.Store)
+		if !ok {
+			continue
+		}
+		ia, ok := st.Addr.(*ssa.IndexAddr)
+		if !ok {
+			continue
+		}
+		al, ok := ia.X.(*ssa.Alloc)
+		if !ok {
+			continue
+		}
+		for _, r3 := range referrers(al) {
+			sl, ok := r3.(*ssa.Slice)
+			if !ok {
+				continue
+			}
+			for _, r4 := range referrers(sl) {
+				cj, ok := r4.(*ssa.Call)
+				if !ok {
+					continue
+				}
+				f := staticCallee(&cj.Call)
+				if !(isFn(f, "path", "Join") || isFn(f, "path/filepath", "Join")) {
+					continue
+				}
+				els := variadicElems(sl)
+				if len(els) >= 2 && stripConv(els[1]) == ssa.Value(p) {
+					if dc, ok := stripConv(els[0]).(*ssa.Call); ok {
+						if df := staticCallee(&dc.Call); df != nil && df.Name() == "AssemblyDir" {
+							joined++
+						}
+					}
+				}
+			}
+		}
+	}
+	return uses > 0 && uses == joined
 }
